@@ -1117,6 +1117,15 @@ class CallsMixin:
             mid = mk_str(z3.If(found, sep, emp), kind)
             tail = mk_str(z3.If(found, z3.SubString(e, idx + z3.Length(sep), n), emp), kind)
             return (head, mid, tail)
+        if name == "split" and len(args) == 2 and not kwargs and args[1] == 1:
+            # split(sep, 1): [head, tail] around the first separator, or [s] when there is none
+            sep = str_to_z3(args[0])
+            if ctx.branch(z3.Contains(e, sep), f"split1:has-sep@{fr.line}"):
+                idx = z3.IndexOf(e, sep, 0)
+                head = mk_str(z3.SubString(e, 0, idx), kind)
+                tail = mk_str(z3.SubString(e, idx + z3.Length(sep), z3.Length(e)), kind)
+                return PList([head, tail])
+            return PList([mk_str(e, kind)])
         if name == "split":
             if len(args) == 1 and not kwargs:
                 # split(sep) is a function of its arguments: non-empty, and the string itself when
@@ -1145,7 +1154,11 @@ class CallsMixin:
             ctx.assume(r >= 0)
             return mk_int(r)
         if name == "replace":
-            return mk_str(z3.Replace(e, str_to_z3(args[0]), str_to_z3(args[1])), kind) if False else SymStr(ctx.fresh("replaced", Str), kind)
+            # replace-all: an uninterpreted function of (string, old, new); '' maps to ''
+            f_rep = z3.Function("s_replace_all", Str, Str, Str, Str)
+            a0, a1 = str_to_z3(args[0]), str_to_z3(args[1])
+            ctx.assume(f_rep(z3.StringVal(""), a0, a1) == z3.StringVal(""))
+            return SymStr(f_rep(e, a0, a1), kind)
         if name == "join":
             return SymStr(ctx.fresh("joined", Str), kind)
         if name == "format":
